@@ -1369,6 +1369,10 @@ def varint_tie_modules():
     mods = ["Ufw.Tie.VarintLoops.Common"] + [m for f, m in VARINT_TIE.items() if VARINT_STATUS.get(f) == "translated"]
     if all(VARINT_STATUS.get(f) == "translated" for f in ("varint_encode", "varint_decode", "varint_done")):
         mods.append("Ufw.Tie.VarintLoops.EndToEnd")   # the round trip of the property theorems, over the translated C
+    wrappers = ("varint_decode", "varint_decode_u64", "varint_decode_s64", "varint_decode_u32", "varint_u64_length",
+                "varint_u32_length", "varint_s32_length", "varint_s64_length", "varint_from_source", "varint_done")
+    if all(VARINT_STATUS.get(f) == "translated" for f in wrappers):
+        mods.append("Ufw.Tie.VarintLoops.Wrappers")   # the typed entry points
     return mods
 
 
@@ -1455,7 +1459,10 @@ def endp_gen():
 def endp_tie_modules():
     # StsLoops holds the obligations of sts_drain_cbc and sts_n_cbc: both have to be there
     ok = lambda f: ENDP_STATUS.get(f) == "translated"
-    return ["Ufw.Tie.EndpFns.Common"] + [m for f, m in ENDP_TIE.items() if ok(f) and (f != "sts_drain_cbc" or ok("sts_n_cbc"))]
+    mods = ["Ufw.Tie.EndpFns.Common"] + [m for f, m in ENDP_TIE.items() if ok(f) and (f != "sts_drain_cbc" or ok("sts_n_cbc"))]
+    if ok("sink_put_chunk") and ok("source_get_chunk"):
+        mods.append("Ufw.Tie.EndpFns.EndToEnd")       # the exactness theorems of the property, over the translated C
+    return mods
 
 
 if __name__ == "__main__":
